@@ -2,6 +2,7 @@ import Driver.Smt
 import Driver.Fk
 import Driver.ModelMode
 import Driver.FramesMode
+import Driver.RatMode
 /-! `osmt-model <mode> <file>`: line-protocol driver around the executable models and kernels. -/
 def main (args : List String) : IO UInt32 := do
   match args with
@@ -12,6 +13,13 @@ def main (args : List String) : IO UInt32 := do
   | ["model", path] =>
     let txt ← IO.FS.readFile path
     for l in Driver.runModel (txt.splitOn "\n") do IO.println l
+    return 0
+  | ["rat", path] =>
+    let txt ← IO.FS.readFile path
+    let mut out := ""
+    for l in txt.splitOn "\n" do
+      if l.trimAscii.toString != "" then out := out ++ Driver.ratLine l ++ "\n"
+    IO.print out
     return 0
   | ["frames", path] =>
     let txt ← IO.FS.readFile path
